@@ -56,6 +56,7 @@ class SchedSender:
         self.pending = {}  # op index -> (future, datagram)
         self.events = []  # (op index, "probe" | "req", parsed)
         self.kwargs = []  # (op index, timeout, retries) of every call, probes included
+        self.corrupt = set()  # op indices whose replies (not the discovery reports) are damaged in transit
 
     async def __call__(self, endpoint, data, timeout=None, retries=None, **kw):
         i = OP_INDEX.get()
@@ -70,13 +71,17 @@ class SchedSender:
     def release(self, i):
         fut, data = self.pending.pop(i)
         if not fut.done():  # a cancelled caller took its future with it
-            fut.set_result(self.agent.respond(data))
+            resp = self.agent.respond(data)
+            probe = B.parse_message(bytes(data)).get("engine_id") == b"" and B.parse_message(bytes(data)).get("version") == 3
+            if i in self.corrupt and not probe and resp:
+                resp = resp[:-1] + bytes([resp[-1] ^ 0x01])  # the last octet of the payload: digest / decryption no longer fit
+            fut.set_result(resp)
 
 
 def op_coro(client, op):
     O = RA.OID
     k = op[0]
-    if k == "get":
+    if k in ("get", "get-damaged"):
         return client.get(O(op[1]))
     if k == "multiget":
         return client.multiget([O(o) for o in op[1]])
@@ -98,7 +103,7 @@ def op_coro(client, op):
 
 
 def canon(op, r):
-    if op[0] in ("get", "set"):
+    if op[0] in ("get", "set", "get-damaged"):
         return RA.canon_value(r)
     if op[0] == "multiget":
         return [RA.canon_value(v) for v in r]
@@ -131,6 +136,7 @@ def _run_schedule(opset, proto, prefix, policy, cancel):
     # make_client registers the user with the agent; the real client gets the scheduler as sender
     clients = [Client("127.0.0.1", W.make_client(agent, version, level, user=f"usr{c}").config.credentials, sender=sender) for c in range(nclients)]
     results = [None] * len(opset)
+    sender.corrupt = {i for i, (_c, op) in enumerate(opset) if op[0] == "get-damaged"}
 
     async def wrap(i, c, op):
         OP_INDEX.set(i)
@@ -140,6 +146,7 @@ def _run_schedule(opset, proto, prefix, policy, cancel):
             results[i] = ["error", RA.canon_exc(exc)]
 
     trace = []
+    last_served = {}
 
     async def main():
         tasks = [asyncio.ensure_future(wrap(i, c, op)) for i, (c, op) in enumerate(opset)]
@@ -161,7 +168,11 @@ def _run_schedule(opset, proto, prefix, policy, cancel):
             if step < len(prefix) and prefix[step] in enabled:
                 choice = prefix[step]
             else:
-                choice = enabled[0] if policy == "lowest" else enabled[-1]
+                if policy == "rr":  # the operation that was served least recently: as many requests in flight as possible
+                    choice = min(enabled, key=lambda k: (last_served.get(k, -1), k))
+                else:
+                    choice = enabled[0] if policy == "lowest" else enabled[-1]
+            last_served[choice] = step
             trace.append((choice, enabled))
             sender.release(choice)
             step += 1
@@ -217,6 +228,8 @@ def run_schedule_user(op, proto, c):
         cl = W.make_client(agent, version, level, user=f"usr{cc}")
         clients[cc] = Client("127.0.0.1", cl.config.credentials, sender=sender)
     results = [None]
+    if op[0] == "get-damaged":
+        sender.corrupt = {0}
 
     async def main():
         OP_INDEX.set(0)
@@ -291,9 +304,9 @@ def model_req(opset, solos, proto, chosen, nclients):
         # replies on which V3MPM.decode forgets the discovery data: an SnmpError raised while the
         # message is processed, i.e. USM reports.  (Error-status responses were among them until the
         # usmStats repair: validate_usm_message used to force every PDU; now only Reports are read
-        # there and an ErrorResponse surfaces in _send, outside decode.)  None of the operations
-        # here draws a report.
-        forget = []
+        # there and an ErrorResponse surfaces in _send, outside decode.)  The same holds for a reply
+        # damaged in transit (wrong digest / undecipherable): the operations marked "get-damaged".
+        forget = [100 * i + k for i in idx if opset[i][1][0] == "get-damaged" and proto[0] == "v3" for k in range(len(solos[i]["requests"][0]))]
         reqs.append(({"op": "conc.run", "procs": procs, "schedule": sched, "forget": forget}, idx))
     return reqs
 
@@ -344,6 +357,15 @@ def run(ctx):
         # waiting, and two overlapping SETs next to a read
         sets.append(([(0, OPS[0]), (0, OPS[-1])], proto, ctx.budget(60, 600), None))
         sets.append(([(0, OPS[-3]), (0, OPS[-2]), (0, OPS[0])], proto, ctx.budget(60, 600), None))
+        # overlapping and identical walks in flight at once (what one has been handed must not be
+        # withheld from the other)
+        sets.append(([(0, OPS[5]), (0, OPS[6])], proto, ctx.budget(40, 600), None))
+        sets.append(([(0, OPS[7]), (0, OPS[5]), (0, OPS[5])], proto, ctx.budget(40, 400), None))
+        sets.append(([(0, OPS[4]), (0, OPS[8])], proto, ctx.budget(40, 400), None))
+        # a reply damaged in transit (rejected by the security model / a foreign id for v2c... ) while
+        # another operation is still in its discovery or waiting for its answer
+        sets.append(([(0, OPS[0]), (0, ("get-damaged", [1, 3, 6, 1, 2, 1, 1, 2, 0]))], proto, ctx.budget(80, 600), None))
+        sets.append(([(0, OPS[5]), (0, ("get-damaged", [1, 3, 6, 1, 2, 1, 1, 2, 0])), (0, OPS[1])], proto, ctx.budget(60, 600), None))
         for _ in range(ctx.budget(5, 16)):
             n = rng.choice([2, 2, 3])
             ops = [rng.choice(OPS) for _ in range(n)]
@@ -351,7 +373,7 @@ def run(ctx):
             opset = [((i % 2) if two else 0, op) for i, op in enumerate(ops)]
             sets.append((opset, proto, ctx.budget(60, 600), None))
         for _ in range(ctx.budget(2, 8)):  # larger sets: sampled schedules
-            n = rng.choice([4, 5, 6])
+            n = rng.choice([5, 6, 8])
             ops = [rng.choice(OPS[:4] + OPS[-2:] + OPS[5:6]) for _ in range(n)]
             opset = [(0, op) for op in ops]
             sets.append((opset, proto, ctx.budget(25, 150), rng))
@@ -367,6 +389,9 @@ def run(ctx):
             r = run_schedule(opset, proto, pre, policy=rng.choice(["lowest", "highest"]), cancel=(rng.randint(0, 3), rng.randrange(len(opset))))
             runs.append(r)
             res.count("schedules-with-cancellation")
+        # every operation served in turn: as many requests outstanding at once as there are operations
+        runs.append(run_schedule(opset, proto, [], policy="rr"))
+        res.count("schedules-round-robin")
         res.count(f"opsets:{proto[0]}")
         res.count("exhaustive-sets" if complete else "bounded-sets")
         for r in runs:
